@@ -276,6 +276,9 @@ def _pure_const_expr(e):
         return all(_pure_const_expr(a) for a in e.args)
     if isinstance(e, ast.Attribute) and _txt(e) in ('math.pi', 'math.e', 'math.inf', 'math.nan'):
         return True
+    if isinstance(e, ast.Attribute) and isinstance(e.value, ast.Name) and e.value.id in ('float', 'int', 'operator', 'math') and (
+            e.value.id in ('operator', 'math') or (e.attr.startswith('__') and e.attr.endswith('__'))) and isinstance(e.ctx, ast.Load):
+        return True                    # a builtin function / slot wrapper bound to a module-level name: an alias
     return False
 
 
@@ -2431,6 +2434,83 @@ def strip_pure_memos(trees, base, log):
                 log.append(f'N10 {mname}: per-object memo {c.name}.{M} of {fn.name}() is pure (value `{_txt(value)[:50]}` of the key and constructor-bound fields): removed')
 
 
+def inline_bound_method_fields(trees, base, log):
+    """N11.  A new field that only ever holds a bound method of another field's object (`self.A = self.G.m` in the constructor, G bound
+    by the constructor only) and is re-bound the same way at the end of a `__setstate__` that otherwise is the default one
+    (`self.__dict__.update(state)`) is, for every object however it was created (constructed, copied, unpickled), that method of its own
+    G: `self.A(..)` is `self.G.m(..)`.  The stores and the then-default `__setstate__` are dropped.  Without such a `__setstate__` a deep
+    copy keeps the method bound to the original's G (bound builtin methods are copied atomically): nothing is rewritten then."""
+    known_attrs = set(base.get('__attrs__', []))
+    for mname, tree in trees.items():
+        for c in [c for c in tree.body if isinstance(c, ast.ClassDef)]:
+            meths = {m.name: m for m in c.body if isinstance(m, ast.FunctionDef)}
+            init, sst = meths.get('__init__'), meths.get('__setstate__')
+            if init is None or sst is None or len(sst.args.args) != 2:
+                continue
+            st_param = sst.args.args[1].arg
+            stores = {}                   # A -> [(fn, stmt)]
+            other_g_stores = set()
+            for m in meths.values():
+                for x in ast.walk(m):
+                    if isinstance(x, (ast.Assign, ast.AnnAssign)) and getattr(x, 'value', None) is not None:
+                        for t in (x.targets if isinstance(x, ast.Assign) else [x.target]):
+                            if isinstance(t, ast.Attribute) and _txt(t.value) == 'self':
+                                stores.setdefault(t.attr, []).append((m, x))
+                                if m.name not in ('__init__',):
+                                    other_g_stores.add(t.attr)
+            strings = {x.value for x in ast.walk(c) if isinstance(x, ast.Constant) and isinstance(x.value, str)}
+            cands = {}
+            for A, sts in stores.items():
+                if A in known_attrs or A in strings:
+                    continue
+                vals = {_txt(x.value) for (_m, x) in sts}
+                if len(vals) != 1:
+                    continue
+                v = sts[0][1].value
+                if not (isinstance(v, ast.Attribute) and isinstance(v.value, ast.Attribute) and _txt(v.value.value) == 'self'):
+                    continue
+                G = v.value.attr
+                if G in other_g_stores or G == A or {m.name for (m, _x) in sts} != {'__init__', '__setstate__'}:
+                    continue
+                if any(len(x.targets) != 1 for (_m, x) in sts if isinstance(x, ast.Assign)):
+                    continue
+                cands[A] = (v, sts)
+            if not cands:
+                continue
+            # __setstate__: the default restore, then the re-bindings -- nothing else, in that order
+            body = _body(sst)
+            rest = [x for x in body if not any(x is sx for (_v, sts) in cands.values() for (_m, sx) in sts)]
+            default = len(rest) == 1 and isinstance(rest[0], ast.Expr) and _txt(rest[0].value) == f'self.__dict__.update({st_param})'
+            if not default or body[0] is not rest[0]:
+                continue
+            # every other use of the field is a load through self
+            ok = True
+            for A in cands:
+                for x in ast.walk(c):
+                    if isinstance(x, ast.Attribute) and x.attr == A and not (_txt(x.value) == 'self' and (isinstance(x.ctx, ast.Load) or any(
+                            x is (sx.targets[0] if isinstance(sx, ast.Assign) else sx.target) for (_m, sx) in cands[A][1]))):
+                        ok = False
+                for t2 in trees.values():
+                    for x in ast.walk(t2):
+                        if isinstance(x, ast.Attribute) and x.attr == A and not any(x is y for y in ast.walk(c)):
+                            ok = False
+            if not ok:
+                continue
+            for A, (v, sts) in cands.items():
+                for (m, sx) in sts:
+                    for blk in [m.body] + [getattr(y, f) for y in ast.walk(m) for f in ('body', 'orelse', 'finalbody') if isinstance(getattr(y, f, None), list)]:
+                        if sx in blk:
+                            blk.remove(sx)
+                            if not blk:
+                                blk.append(ast.copy_location(ast.Pass(), sx))
+
+                def match(node, A=A, v=v):
+                    return v if isinstance(node, ast.Attribute) and node.attr == A and _txt(node.value) == 'self' else None
+                _ReplaceLoads(match).visit(c)
+                log.append(f'N11 {mname}: {c.name}.{A} always is the bound method `{_txt(v)}` of the object\'s own {v.value.attr} (constructor and __setstate__): inlined')
+            c.body.remove(sst)
+
+
 def _paths_read(e):
     """texts of the attribute / subscript access paths read by e"""
     out = set()
@@ -2686,6 +2766,12 @@ def propagate_locals(trees, base, log):
                                     continue              # constructing the exception that is being raised
                                 # a method call on the alias itself (subscribers.append) is the aliased operation
                                 if isinstance(x.func, ast.Attribute) and isinstance(x.func.value, ast.Name) and x.func.value.id == name:
+                                    continue
+                                # calling the alias of a bound method (`draw = self._stream.next_float; draw()`) is that method call: it runs on
+                                # the object the path named when the alias was taken, and a method of another object does not re-bind this one's field
+                                if isinstance(x.func, ast.Name) and x.func.id == name and isinstance(val, ast.Attribute) and f.count('.') == 0:
+                                    continue
+                                if f.startswith('math.'):
                                     continue
                                 safe = False
             if not safe:
@@ -3450,6 +3536,28 @@ def strip_noops(trees, base, log):
                 return ast.copy_location(ast.Compare(left=node.args[0], ops=[cmp2[f]()], comparators=[node.args[1]]), node)
             if f == 'operator.neg' and len(node.args) == 1:
                 return ast.copy_location(ast.UnaryOp(op=ast.USub(), operand=node.args[0]), node)
+            # slot wrappers of the float base class called directly (`float.__lt__(a, b)`): the operation on the float values of the operands
+            if f.startswith('float.__') and f.endswith('__') and not node.keywords:
+                slot = f[len('float.'):]
+                fl = lambda x: x if (isinstance(x, ast.Call) and _txt(x.func) == 'float') else ast.copy_location(
+                    ast.Call(func=ast.Name(id='float', ctx=ast.Load()), args=[x], keywords=[]), x)
+                SLOT_CMP = {'__lt__': ast.Lt, '__le__': ast.LtE, '__gt__': ast.Gt, '__ge__': ast.GtE, '__eq__': ast.Eq, '__ne__': ast.NotEq}
+                SLOT_BIN = {'__add__': ast.Add, '__sub__': ast.Sub, '__mul__': ast.Mult, '__truediv__': ast.Div, '__floordiv__': ast.FloorDiv, '__mod__': ast.Mod,
+                            '__pow__': ast.Pow}
+                if slot in SLOT_CMP and len(node.args) == 2:
+                    counts['conv'] += 1
+                    return ast.copy_location(ast.Compare(left=fl(node.args[0]), ops=[SLOT_CMP[slot]()], comparators=[fl(node.args[1])]), node)
+                if slot in SLOT_BIN and len(node.args) == 2:
+                    counts['conv'] += 1
+                    return ast.copy_location(ast.BinOp(left=fl(node.args[0]), op=SLOT_BIN[slot](), right=fl(node.args[1])), node)
+                if slot == '__neg__' and len(node.args) == 1:
+                    counts['conv'] += 1
+                    return ast.copy_location(ast.UnaryOp(op=ast.USub(), operand=fl(node.args[0])), node)
+                if slot == '__abs__' and len(node.args) == 1:
+                    counts['conv'] += 1
+                    return ast.copy_location(ast.Call(func=ast.Name(id='abs', ctx=ast.Load()), args=[fl(node.args[0])], keywords=[]), node)
+                if slot == '__float__' and len(node.args) == 1:
+                    return fl(node.args[0])
             return node
 
         def visit_Compare(self, node):
@@ -3458,6 +3566,10 @@ def strip_noops(trees, base, log):
             flip = {ast.Lt: ast.Gt, ast.LtE: ast.GtE, ast.Gt: ast.Lt, ast.GtE: ast.LtE}
             if len(node.ops) == 1 and type(node.ops[0]) in flip and isinstance(node.left, ast.Constant) and not isinstance(node.comparators[0], ast.Constant):
                 return ast.copy_location(ast.Compare(left=node.comparators[0], ops=[flip[type(node.ops[0])]()], comparators=[node.left]), node)
+            # classes are compared by identity either way: `type(a) is not type(b)`  ->  `type(a) != type(b)`
+            if len(node.ops) == 1 and isinstance(node.ops[0], (ast.Is, ast.IsNot)) and all(
+                    isinstance(x, ast.Call) and _txt(x.func) == 'type' and len(x.args) == 1 for x in (node.left, node.comparators[0])):
+                node.ops = [ast.Eq() if isinstance(node.ops[0], ast.Is) else ast.NotEq()]
             return node
 
     def block(stmts, known_calls):
@@ -3514,6 +3626,7 @@ def run(trees, baseline=None):
     undo_renames(trees, base, log)
     match_to_if(trees, log)
     instantiate_method_factories(trees, base, log)
+    inline_bound_method_fields(trees, base, log)
     OBSERVERS.clear()
     OBSERVERS.update(observer_methods(trees))
     strip_noops(trees, base, log)
